@@ -468,6 +468,12 @@ theorem harness_registry_pinned : harnessRegistry = registeredChildren := by dec
 theorem planted_children_have_planters :
     (childrenWith "planted").all (fun r => harnessPlanters.contains r) = true := by decide +kernel
 
+/-- The places of pyanalyze/value.py that build an `AnnotatedValue` directly, resp. through the normalising
+`annotate_value`, are the registered ones: a switch from the helper to the raw constructor (or a new site)
+breaks this obligation. -/
+theorem annotated_construction_sites_registered : annotatedSites = registeredAnnotatedSites := by
+  decide +kernel
+
 /-! ## Non-vacuity: every hypothesis set is met by a non-trivial input -/
 
 /-- `dict[str, Literal[(1,)]]` and `dict[str, Literal[(True,)]]`: different terms, `==`, same hash -/
